@@ -1,8 +1,8 @@
 CONSTANTS
   Addr = {"a1", "a2", "a3", "a4"}
   Payer = {"p1", "p2"}
-  MaxG = 12
-  MaxSig = 60
+  MaxG = 9
+  MaxSig = 26
   MemberMenu = {}
   MinDur = 1
   MaxDur = 3
